@@ -25,4 +25,4 @@ def run(chk, tier, seed, replay):
             chk.mismatch(case, {"what": w, **detail}, kind=kind, what=w)
         return
     with tlc.Scratch("c20") as s:
-        run_cases(chk, "ctor", "TransCases", "MC_TransCases_c20.cfg" if tier == "quick" else "MC_TransCases_c20.cfg", s, ad.run_case)
+        run_cases(chk, "ctor", "TransCases", "MC_TransCases_c20.cfg" if tier == "quick" else "MC_TransCases_c20t.cfg", s, ad.run_case)
